@@ -3,8 +3,10 @@ package main
 import (
 	"fmt"
 	"math/big"
+	"regexp"
 	"sort"
 	"strings"
+	"sync"
 )
 
 // Sort is an SMT-LIB sort, written out.
@@ -191,6 +193,10 @@ type VC struct {
 	covers   []*Obligation
 	notes    []string // abstractions applied, recorded for evidence
 	noteSet  map[string]bool
+	declName []string
+	declSyms [][]string
+	declIdx  map[string]int
+	once     sync.Once
 }
 
 type assumption struct {
@@ -295,26 +301,112 @@ func (vc *VC) cover(o *Obligation, pc Term) {
 	vc.covers = append(vc.covers, o)
 }
 
+var symRe = regexp.MustCompile(`[A-Za-z0-9_]+![0-9]+`)
+
+func symsOf(s string) []string { return symRe.FindAllString(s, -1) }
+
 // query renders the SMT-LIB text that is unsat iff the obligation holds.
+// Only the cone of influence of the goal is emitted: definitions and
+// assumptions that share no symbol (transitively) with the goal and its path
+// condition are dropped, which only weakens the hypotheses.
 func (vc *VC) query(o *Obligation, withModel bool) string {
+	vc.once.Do(func() {
+		vc.declName = make([]string, len(vc.decls))
+		vc.declSyms = make([][]string, len(vc.decls))
+		vc.declIdx = map[string]int{}
+		for i, d := range vc.decls {
+			f := strings.Fields(d)
+			name := ""
+			if len(f) > 1 {
+				name = f[1]
+			}
+			vc.declName[i] = name
+			vc.declIdx[name] = i
+			rest := d
+			if k := strings.Index(d, name); k >= 0 {
+				rest = d[k+len(name):]
+			}
+			vc.declSyms[i] = symsOf(rest)
+		}
+	})
+	type asm struct {
+		text string
+		syms []string
+		what string
+	}
+	var cand []asm
+	for _, a := range vc.assumes {
+		if a.pos >= o.pos {
+			break
+		}
+		t := implies(a.pc, a.fact).S
+		cand = append(cand, asm{t, symsOf(t), a.what})
+	}
+	need := map[string]bool{}
+	var work []string
+	add := func(ss []string) {
+		for _, s := range ss {
+			if !need[s] {
+				need[s] = true
+				work = append(work, s)
+			}
+		}
+	}
+	add(symsOf(o.pc.S))
+	if !o.Cover {
+		add(symsOf(o.goal.S))
+	}
+	usedAsm := make([]bool, len(cand))
+	for {
+		for len(work) > 0 {
+			s := work[len(work)-1]
+			work = work[:len(work)-1]
+			if i, ok := vc.declIdx[s]; ok {
+				add(vc.declSyms[i])
+			}
+		}
+		changed := false
+		for i, c := range cand {
+			if usedAsm[i] {
+				continue
+			}
+			hit := len(c.syms) == 0
+			for _, s := range c.syms {
+				if need[s] {
+					hit = true
+					break
+				}
+			}
+			if hit {
+				usedAsm[i] = true
+				add(c.syms)
+				changed = true
+			}
+		}
+		if !changed && len(work) == 0 {
+			break
+		}
+	}
 	var b strings.Builder
 	b.WriteString("(set-option :produce-models true)\n(set-logic ALL)\n")
 	for _, p := range vc.preamble {
 		b.WriteString(p)
 		b.WriteByte('\n')
 	}
-	for _, d := range vc.decls {
-		b.WriteString(d)
-		b.WriteByte('\n')
+	for i, d := range vc.decls {
+		if need[vc.declName[i]] || !strings.Contains(vc.declName[i], "!") {
+			b.WriteString(d)
+			b.WriteByte('\n')
+		}
 	}
-	for _, a := range vc.assumes {
-		if a.pos >= o.pos {
-			break
+	for i, c := range cand {
+		if !usedAsm[i] {
+			continue
 		}
 		b.WriteString("(assert ")
-		b.WriteString(implies(a.pc, a.fact).S)
+		b.WriteString(c.text)
 		b.WriteString(") ; ")
-		b.WriteString(a.what)
+		b.WriteString(c.what)
 		b.WriteByte('\n')
 	}
 	b.WriteString("(assert " + o.pc.S + ")\n")
